@@ -167,7 +167,7 @@ reg(
 )
 
 reg(
-    H("c18_lock_lives_with_last_handle", "rawdb", "C18", mem=12, timeout=1200,
+    H("c18_lock_lives_with_last_handle", "rawdb", "C18", mem=12, timeout=1200, features="verif_teardown",
       desc="open, clone the handle, optionally take a read-only file for an external consumer, drop the handles one by one (the Arc model runs the real drop glue of DatabaseInner when the last strong reference goes): both advisory locks are held while any handle is alive and released with the last one, even while the consumer still holds its read-only file (which must therefore be a separate open file description)",
       bounds="data file 0..8 pages, empty regions file; fs model: a lock lives until the last handle on the locking open-file description is dropped (flock semantics), try_clone shares the description, open creates a new one",
       functions=["rawdb::Database::{open_with_min_len,open_read_only_file,clone,drop}", "rawdb::Regions::open", "drop glue of DatabaseInner / Regions"],
